@@ -149,6 +149,19 @@ func runC07(c *mon.Ctx) {
 		if p, perr := x.GetProfile(); perr != nil || p != name {
 			c.Violation("C07/NewClaims/reports-other-profile", fmt.Sprintf("NewClaims(%q).GetProfile() = %q, %v", name, p, perr), map[string]any{"config": reg.name})
 		}
+		// an instance handed out earlier is re-labelled in place by its owner;
+		// NewClaims(p) must still report p afterwards
+		if p2 := obs.P2Of(x); p2 != nil && p2.Profile != nil {
+			_ = p2.Profile.Set("http://example.com/relabelled/by-owner")
+		} else if p1 := obs.P1Of(x); p1 != nil && p1.Profile != nil {
+			*p1.Profile = "RELABELLED_BY_OWNER"
+		}
+		if y, yerr := psatoken.NewClaims(name); yerr != nil {
+			c.Violation("C07/NewClaims/registered-name-refused", fmt.Sprintf("NewClaims(%q) failed after an earlier instance was re-labelled: %v", name, yerr), map[string]any{"config": reg.name})
+		} else if p, perr := y.GetProfile(); perr != nil || p != name {
+			c.Violation("C07/NewClaims/reports-other-profile-after-relabel", fmt.Sprintf("after the owner of an earlier instance re-labelled it in place, NewClaims(%q).GetProfile() = %q, %v", name, p, perr), map[string]any{"config": reg.name})
+		}
+		c.Count("newclaims-after-relabel")
 	}
 	for _, name := range []string{"http://example.com/unregistered/1", "PSA_IOT_PROFILE_9", "psa_iot_profile_1", model.P2Name + "/", " " + model.P1Name, extprof.ExtP2Name, extprof.ExtP1Name, "http://example.com/numbered/7"} {
 		if _, ok := reg.types[name]; ok {
